@@ -173,21 +173,37 @@ class Scenario:
         """bzip2 / brotli with default parameters (generic offer -> accept -> response-accept through the extension map)"""
         from autobahn.websocket.compress import PERMESSAGE_COMPRESSION_EXTENSION as X
         cls = X[ext]
+        rng = self.rng
+        okw, akw, rkw = {}, (lambda of: {}), (lambda resp: {})
+        if ext == "permessage-brotli" and rng.random() < 0.7:
+            # context takeover negotiated per direction (also asymmetrically), with and without local overrides
+            okw = dict(accept_no_context_takeover=rng.random() < 0.7, request_no_context_takeover=rng.random() < 0.4)
+            s_req, s_ovr, c_ovr = rng.random() < 0.5, rng.choice([None, None, True]), rng.choice([None, None, True])
+            akw = lambda of: dict(request_no_context_takeover=s_req and of.accept_no_context_takeover, no_context_takeover=s_ovr)   # noqa: E731
+            rkw = lambda resp: dict(no_context_takeover=c_ovr)                                                                     # noqa: E731
+        elif ext == "permessage-bzip2" and rng.random() < 0.7:
+            o_req = rng.choice([0, 0, 1, 5, 9])
+            okw = dict(accept_max_compress_level=rng.random() < 0.7, request_max_compress_level=o_req)
+            s_req, s_lvl, c_lvl = rng.choice([0, 0, 1, 6, 9]), rng.choice([None, 1, 9]), rng.choice([None, 1, 9])
+            akw = lambda of: dict(request_max_compress_level=s_req if of.accept_max_compress_level else 0,                        # noqa: E731
+                                  compress_level=None if s_lvl is None else (min(s_lvl, of.request_max_compress_level) if of.request_max_compress_level else s_lvl))
+            rkw = lambda resp: dict(compress_level=None if c_lvl is None else                                                      # noqa: E731
+                                    (min(c_lvl, resp.client_max_compress_level) if resp.client_max_compress_level else c_lvl))
 
         def accept(offers):
             for of in offers:
                 if isinstance(of, cls["Offer"]):
-                    return cls["OfferAccept"](of)
+                    return cls["OfferAccept"](of, **akw(of))
 
         def caccept(resp):
             if isinstance(resp, cls["Response"]):
-                return cls["ResponseAccept"](resp)
+                return cls["ResponseAccept"](resp, **rkw(resp))
 
         sopts["perMessageCompressionAccept"] = accept
-        copts["perMessageCompressionOffers"] = [cls["Offer"]()]
+        copts["perMessageCompressionOffers"] = [cls["Offer"](**okw)]
         copts["perMessageCompressionAccept"] = caccept
         self.dlimit = {"C": 0, "S": 0}
-        return dict(ext=ext)
+        return dict(ext=ext, params=repr(sorted(okw.items())))
 
     def compression(self, sopts, copts):
         rng = self.rng
